@@ -279,7 +279,7 @@ func c14Schemas(thorough bool) (*SPkg, []*Schema) {
 		t.p.Imports = []SImport{{Pkg: b.base}}
 		return []*SPkg{b.base, t.p}
 	})
-	for _, alias := range []string{"c", "n", "s", "ec", "pc", "b", "ref", "spec", "bin", "rpc", "status"} {
+	for _, alias := range []string{"c", "n", "s", "ec", "pc", "b", "ref", "spec", "bin", "rpc", "status", "client", "ch", "msg", "result", "w", "m"} {
 		alias := alias
 		mut("unused import under alias "+alias+" (substring of / equal to a fixed Go import of the generated file)", "", "either", func(t *c14tmpl) []*SPkg {
 			t.p.Imports = []SImport{{Pkg: b.base, Alias: alias}}
